@@ -39,6 +39,18 @@ theorem newOf_cons_minus {pl : PatchLine} {ls : List PatchLine} (h : pl.op = MIN
 theorem oldOf_length_le (ls : List PatchLine) : (oldOf ls).length ≤ ls.length := by
   simp only [oldOf, List.length_map]; exact List.length_filter_le _ _
 
+/-! ### `Valid` -/
+
+theorem valid_allWF {file : List Line} {c : Nat} {d : Int} {hs : List Hunk} (hv : Valid file c d hs) :
+    ∀ h ∈ hs, h.WF := by
+  induction hv with
+  | nil => intro h hm; cases hm
+  | cons c d h hs p hw _ _ _ _ _ _ _ ih =>
+    intro x hm
+    rcases List.mem_cons.1 hm with e | e
+    · rw [e]; exact hw
+    · exact ih x e
+
 /-! ### copyRange -/
 
 theorem copyRange_map_line (file : List Line) (i n : Nat) :
